@@ -710,4 +710,31 @@ theorem reassemble_segment (c : TxCfg) (hv : c.valid) (p : Bytes) (h1 : 1 ≤ p.
     reassemble c.pre.length (segment c p) = some p :=
   reassemble_wellFormed c.pre p (by have := (facts c hv).pre; omega) _ (segment_wellFormed c hv p h1 h2)
 
+/-- a stream is a well-formed encoding of at most one payload -/
+theorem wellFormed_unique (pre p q : Bytes) (hpre : pre.length ≤ 6) (frames : List Bytes)
+    (hp : WellFormed pre p frames) (hq : WellFormed pre q frames) : p = q := by
+  have h1 := reassemble_wellFormed pre p hpre frames hp
+  have h2 := reassemble_wellFormed pre q hpre frames hq
+  rw [h1] at h2
+  exact Option.some.inj h2
+
+theorem segment_injective (c : TxCfg) (hv : c.valid) (p q : Bytes)
+    (hp1 : 1 ≤ p.length) (hp2 : p.length < 4294967296) (hq1 : 1 ≤ q.length) (hq2 : q.length < 4294967296)
+    (h : segment c p = segment c q) : p = q := by
+  have h1 := reassemble_segment c hv p hp1 hp2
+  have h2 := reassemble_segment c hv q hq1 hq2
+  rw [h, h2] at h1
+  exact (Option.some.inj h1).symm
+
+/-- Without a bound on the prefix length `WellFormed` is not functional: with a 7-byte prefix and
+    8-byte frames neither the First Frame nor a Consecutive Frame has room for payload
+    (`ffRoom = cfRoom = 0`, truncated subtraction), and the same two frames are a "well-formed"
+    encoding of every 1-byte payload. (`WellFormed` is documented for a prefix of 0 or 1 byte.) -/
+theorem wellFormed_long_prefix_ambiguous :
+    WellFormed [1, 2, 3, 4, 5, 6, 7] [1] [[1, 2, 3, 4, 5, 6, 7, 0x10, 0x01], [1, 2, 3, 4, 5, 6, 7, 0x21]] ∧
+    WellFormed [1, 2, 3, 4, 5, 6, 7] [2] [[1, 2, 3, 4, 5, 6, 7, 0x10, 0x01], [1, 2, 3, 4, 5, 6, 7, 0x21]] := by
+  constructor
+  · exact Or.inr (Or.inr ⟨8, [], [], [], by decide, by decide, by decide, by decide, by decide, by decide, by decide⟩)
+  · exact Or.inr (Or.inr ⟨8, [], [], [], by decide, by decide, by decide, by decide, by decide, by decide, by decide⟩)
+
 end Isotp.Proofs.Seg
